@@ -7,6 +7,7 @@ mod adapt;
 mod bcast;
 mod e1;
 mod e2;
+mod locks2;
 mod payload;
 mod topic;
 
@@ -55,6 +56,10 @@ fn run_replay(r: &Replay) -> Option<Failure> {
     "E2" => {
       let s: e2::Scenario = vcore::from_value(&r.scenario);
       e2::execute(&s).err()
+    }
+    "E2-locks" => {
+      let s: locks2::Scenario = vcore::from_value(&r.scenario);
+      locks2::execute(&s).err()
     }
     "E1-topic" => {
       let s: topic::Scenario = vcore::from_value(&r.scenario);
@@ -172,6 +177,14 @@ fn main() {
             check_topic(&mut check, 3);
           }
           (rule_for(&prop), vec!["E1: sequential histories (no overlapping operations); E2: single-threaded async histories (overlap through pending futures only)".into()])
+        }
+        "C10" => {
+          let ctx = check.ctx.clone();
+          let cases = std::env::var("VERIF_CASES5").ok().and_then(|s| s.parse().ok()).unwrap_or(ctx.tier.pick(40_000u64, 2_000_000u64));
+          let max_ops = ctx.tier.pick(40usize, 80usize);
+          let out = vcore::drive(&ctx, &check.findings, 5, cases, move || locks2::scenario_strategy(max_ops), |s| locks2::execute(s));
+          check.absorb("E2-locks", out);
+          ("E2-locks: generated single-threaded histories of async / try acquisitions, releases, cancellations (before / after wake), re-polls with new wakers and reader streams on HybridMutex and HybridRwLock; non-trivial = an acquisition was attempted while a guard was held; distinct = hash of the scenario".into(), vec!["single-threaded executor owned by the harness".into()])
         }
         "C08" => {
           check_topic(&mut check, 1);
